@@ -172,7 +172,7 @@ def eff_signs(arr):
 def fuse_cases(tier, fermionic):
     out = []
     syms = ("Z2", "U1", "Z2Z2") if tier == "quick" else ("Z2", "U1", "Z2Z2", "U1U1", "Z4")
-    for sp in specs(tier, syms=syms, ranks=(2, 3, 4), fermionic=(fermionic,)):
+    for sp in specs(tier, syms=syms, ranks=(2, 3, 4), fermionic=(fermionic,), drops=("none", "alternate", "first")):
         if tier == "quick":
             nd = sp.ndim
             pats = {tuple(bool(i % 2) for i in range(nd)), tuple(i < (nd + 1) // 2 for i in range(nd))}
@@ -258,7 +258,64 @@ def _layout_job(state, job):
     return wit.w, wit.n
 
 
-def check_layout(prog, ctx, fermionic_too=True, rules=("L1", "L2", "L3", "L4")):
+def nested_cases(tier):
+    out = []
+    syms = ("Z2", "U1") if tier == "quick" else ("Z2", "U1", "Z2Z2", "U1U1", "Z4")
+    for sp in specs(tier, syms=syms, ranks=(3, 4), fermionic=(False, True)):
+        if sp.duals[0] != sp.duals[1]:
+            continue
+        if tier == "quick" and (sp.drop == "none" and sp.ndim == 4):
+            continue
+        out.append(sp)
+    return out
+
+
+def _nested_job(state, sp):
+    """L5: arrays that already carry a fused leg are fused again (all axes) and fully unfused, two of them in one session
+    that differ only in the inner structure of the fused leg (same charges and sizes)"""
+    prog, tier = state
+    w = World(prog)
+    wit = Witness()
+    where = sp.describe()
+    nd = sp.ndim
+    try:
+        ev = w.ev()  # one session: the fuse-plan cache is shared
+        outs = []
+        for inner in ((0, 1), (1, 0)):
+            a = w.meth(ev, sp.build(w), "fuse", inner)
+            n2 = len(a.fields["_indices"])
+            a2 = w.meth(ev, a, "fuse", tuple(range(n2)))
+            back = w.meth(ev, w.meth(ev, a2, "unfuse_all"), "unfuse_all")  # one level per call
+            perm = inner + tuple(range(2, nd))
+            xt = w.meth(ev, sp.build(w), "transpose", perm)
+            outs.append((inner, a2, back, xt))
+        for inner, a2, back, xt in outs:
+            wit.tick("L5")
+            for kind, text in audit_kinds(a2, sp.sym):
+                wit.bad("L5", f"{where}: fuse{inner} then fuse(all): {text}")
+            if [ixdesc(i) for i in back.fields["_indices"]] != [ixdesc(i) for i in xt.fields["_indices"]]:
+                wit.bad("L5", f"{where}: fuse{inner}, fuse(all), unfuse_all does not restore the indices of x in the order {inner}+rest")
+                continue
+            eb, et = eff_signs(back), eff_signs(xt)
+            for s_, v in et.items():
+                if eb.get(s_) != v:
+                    wit.bad("L5", f"{where}: fuse{inner}, fuse(all), unfuse_all: block {s_} comes back as {eb.get(s_)}, expected {v}")
+                    break
+            for s_, v in eb.items():
+                if s_ not in et and v[0] != 0:
+                    wit.bad("L5", f"{where}: fuse{inner}, fuse(all), unfuse_all: non-zero extra block {s_}")
+    except Unsupported as e:
+        raise AnalysisError(f"nested fuse outside the evaluable sub-language: {e}")
+    except Raised as e:
+        wit.bad("L5", f"{where}: raises {e.what[:120]}")
+    except PYERR as e:
+        wit.bad("L5", f"{where}: {type(e).__name__}: {e}")
+    except LayoutError as e:
+        wit.bad("L5", f"{where}: {e}")
+    return wit.w, wit.n
+
+
+def check_layout(prog, ctx, fermionic_too=True, rules=("L1", "L2", "L3", "L4", "L5")):
     from engine.parallel import pmap
 
     tier = ctx.tier
@@ -269,7 +326,14 @@ def check_layout(prog, ctx, fermionic_too=True, rules=("L1", "L2", "L3", "L4")):
             wits.setdefault(k, v)
         for k, v in n.items():
             counts[k] = counts.get(k, 0) + v
+    njobs = nested_cases(tier) if "L5" in rules else []
+    for wmap, n in pmap(_nested_job, (prog, tier), njobs):
+        for k, v in wmap.items():
+            wits.setdefault(k, v)
+        for k, v in n.items():
+            counts[k] = counts.get(k, 0) + v
     ctx.need(len(jobs) >= 100, f"layout: only {len(jobs)} fuse cases")
+    ctx.need(not njobs or len(njobs) >= 20, f"layout: only {len(njobs)} nested fuse cases")
     fuse = prog.func("symmray.abelian_core:AbelianArray.fuse")
     unfuse = prog.func("symmray.abelian_core:AbelianArray.unfuse")
     ffuse = prog.func("symmray.fermionic_core:FermionicArray.fuse")
@@ -280,6 +344,8 @@ def check_layout(prog, ctx, fermionic_too=True, rules=("L1", "L2", "L3", "L4")):
                      "independent of the stored order of sectors"),
         "L3": (unfuse, "unfuse_all(fuse(x)) is x in the plan's axis order: every block is itself, extras are zero, indices restored"),
         "L4": (ffuse, "fermionic round trip: same windows, effective signs equal those of the fermionic transpose to the plan's order"),
+        "L5": (fuse, "arrays that already carry a fused leg: fusing everything again and unfusing all restores x (axis order of the inner "
+                     "group), also for two arrays in one session that differ only in the inner structure of the fused leg"),
     }
     for key, (f, msg) in texts.items():
         if key not in rules and key != "runs":
